@@ -32,6 +32,9 @@ import rulesets
 
 ID = "C15"
 TRUSTED = ["pickle.dump/load is the identity on int, bool, list of [str,int,int] (the .omn content is compared with the model state)",
+           "translator tie: harness/translate_omen_gen.py + coq/theories/OmenGenRt.v (as for C10); save_session / load_session are "
+           "not translated: the order of the pickled fields and the constructor call of load_session are extracted (omen_save_order, "
+           "omen_load_order, harness/consts/zz_omen_gen.py)",
            "configparser write/read round trip of the .sav file",
            "the key-press thread is replaced by an inert stand-in that never reads stdin; the quit is pcfg.should_exit set from the "
            "print_guess wrapper (for a loop that polls thread liveness the stand-in's is_alive() is `not should_exit`); thread "
@@ -657,7 +660,9 @@ def run(ctx):
         src.append("].")
         src.append("Eval vm_compute in (ofailing (fun c => match c with (G, T, j, st, rest) => check_resume_case G T j st rest end) cases).")
         shards.append(("s%04d" % k, "\n".join(src)))
-    corr = []
+    # translator tie: the generated Optimizer / GuessStructure / MarkovCracker code = the model (names the broken lemma)
+    import omen_gen_gen_tie
+    corr = list(omen_gen_gen_tie.obligations())
     for name, idx, log in common.run_case_shards("C15", shards):
         k = int(name[1:])
         if idx is None:
